@@ -45,7 +45,7 @@ ASSUMPTIONS = [
 ]
 LEVEL_TEXT = "generated identities and upstream certificates; every produced certificate is verified by an independent strict verifier"
 LEVEL_NOTE = "trusts Python ssl/OpenSSL 3.0 and cryptography as the verifier"
-QUICK_N, THOROUGH_N = 17_000, 400_000
+QUICK_N, THOROUGH_N = 14_000, 400_000
 BUDGET_S = (240, 3600)
 
 # ------------------------------------------------------------------------------------------------ strategies
